@@ -14,6 +14,9 @@ tie:   random operation histories (SetPoints / SetWeights / Query / GetItem / En
        slice.indices exhaustively on a small box.
 float: tiny / equal / permuted / same-object reassignments of points and weights after the tree exists, judged by an
        exact-rational oracle on the implementation (radius between a point's old and new distance).
+forms: grids whose arrays are not float64 (int / float32 storage at construction or by reassignment), fractional centres,
+       centre and radius in every accepted argument form, radii a hair beyond / short of a point's distance; the returned
+       LocalGrid.center must be the centre asked for.  Same exact-rational oracle.
 search: an independent brute-force oracle judges every in-scope step of every history on the implementation; a
        property failure that the (agreeing) model does not attribute to a flagged, directed-witness defect is a
        violation with the concrete history as replay.
@@ -155,12 +158,14 @@ def build_grid(d):
 
     f = lambda x: np.array(x, dtype=float)  # noqa: E731
     k = d["kind"]
+    # optional storage form of user-supplied arrays: coordinates divided by "div", cast to "pdtype" / "wdtype"
+    cast = lambda a, key: (a / d.get("div", 1) if key == "pdtype" else a).astype(d.get(key, "float64"))  # noqa: E731
     if k == "Grid":
         p = f([r[0] for r in d["points"]]) if d["flat"] else f(d["points"])
-        return Grid(p, f(d["weights"]))
+        return Grid(cast(p, "pdtype"), cast(f(d["weights"]), "wdtype"))
     if k == "OneDGrid":
         dom = None if d["domain"] is None else tuple(d["domain"])
-        return OneDGrid(f([r[0] for r in d["points"]]), f(d["weights"]), dom)
+        return OneDGrid(cast(f([r[0] for r in d["points"]]), "pdtype"), cast(f(d["weights"]), "wdtype"), dom)
     if k == "AtomGrid":
         rg = OneDGrid(f(d["radii"]), np.ones(len(d["radii"])), (0, np.inf))
         return AtomGrid(rg, degrees=[3], center=None if d["center"] is None else f(d["center"]))
@@ -676,12 +681,30 @@ def float_expected(g, centre, r):
     return out
 
 
+def centre_arg(st):
+    """The centre object handed to get_localgrid, in the argument form the step asks for."""
+    c, form = st["centre"], st.get("cform", "array64")
+    if isinstance(c, float):
+        return {"array64": c, "float": c, "np64": np.float64(c), "np32": np.float32(c), "int": int(c), "array0d": np.array(c)}[form]
+    return {"array64": lambda: np.array(c, dtype=float), "list": lambda: list(c), "tuple": lambda: tuple(c),
+            "array32": lambda: np.array(c, dtype=np.float32), "arrayint": lambda: np.array(c, dtype=int)}[form]()
+
+
+def radius_arg(st):
+    r, form = st["r"], st.get("rform", "float")
+    return {"float": r, "np64": np.float64(r), "np32": np.float32(r), "int": int(r)}[form]
+
+
 def float_observe(g, centre, r):
     try:
         lg = g.get_localgrid(centre, r)
         P, W, I = np.asarray(lg.points), np.asarray(lg.weights), np.asarray(lg.indices)
         if len(W) != len(P) or len(W) != len(I):
             return f"shapes points{P.shape} weights{W.shape} indices{I.shape}"
+        want_c = [float(v) for v in np.atleast_1d(np.asarray(centre, dtype=float))]
+        got_c = [float(v) for v in np.atleast_1d(np.asarray(lg.center, dtype=float))]
+        if got_c != want_c or np.ndim(lg.center) != np.ndim(np.asarray(centre)):
+            return f"LocalGrid.center={got_c}, requested centre {want_c}"
         return sorted((int(I[j]), fbits(P[j]), wbits(W[j])) for j in range(len(W)))
     except Exception as e:  # noqa: BLE001
         return f"{type(e).__name__}: {str(e)[:60]}"
@@ -690,11 +713,13 @@ def float_observe(g, centre, r):
 def float_step(g, st, state):
     """Apply one step of a float history (pure function of the description, used by run and replay)."""
     if st["op"] == "query":
-        return float_observe(g, st["centre"] if isinstance(st["centre"], float) else np.array(st["centre"], dtype=float), st["r"])
+        return float_observe(g, centre_arg(st), radius_arg(st))
     attr = "points" if st["op"] == "setpoints" else "weights"
     old = np.asarray(getattr(g, attr), dtype=float)
     mode = st["mode"]
-    if mode == "rel":
+    if mode == "astype":           # the same values (rounded if need be) in another storage type
+        new = np.asarray(getattr(g, attr)).astype(st["dtype"])
+    elif mode == "rel":
         new = old * (1.0 + st["eps"])
     elif mode == "abs":
         new = old + st["eps"]
@@ -782,13 +807,74 @@ def gen_float_history(rng, kind):
     return desc, steps
 
 
+def gen_form_history(rng, kind):
+    """Grids whose arrays are not float64 (integer / float32 storage, at construction or by reassignment), fractional centres,
+    centre and radius passed in every accepted form, radii a hair beyond / short of a point's distance."""
+    ri = rng.randint
+    desc = gen_desc(rng, kind)
+    if kind in ("Grid", "OneDGrid"):
+        pd = rng.choice(["int64", "int32", "float32", "float64"])
+        desc["pdtype"], desc["wdtype"] = pd, rng.choice(["float64", "float32", "int64"])
+        if pd.startswith("float"):
+            desc["div"] = rng.choice([1, 2, 8])
+        if kind == "OneDGrid":
+            desc["domain"] = None if rng.random() < 0.5 else [-50, 50]
+    g = build_grid(desc)
+    P = np.asarray(g.points)
+    n = len(np.asarray(g.weights))
+    flat = P.ndim == 1
+    d = P.reshape(n, -1).shape[1]
+    steps = []
+    if kind not in ("Grid", "OneDGrid") or rng.random() < 0.4:
+        if rng.random() < 0.5:   # build the tree first, then change the storage type by reassignment
+            steps.append({"op": "query", "centre": 0.5 if flat else [0.5] * d, "r": radius_of(ri(0, 30))["r"]})
+        what = "setpoints" if rng.random() < 0.75 else "setweights"
+        steps.append({"op": what, "mode": "astype",
+                      "dtype": rng.choice(["int64", "float32", "int32"] if what == "setpoints" else ["float32", "int64"])})
+    g2, state = build_grid(desc), {}
+    for st in steps:
+        if st["op"] != "query":
+            float_step(g2, st, state)
+    rows = np.asarray(g2.points, dtype=float).reshape(n, -1)
+    for _ in range(ri(1, 3)):
+        i = rng.randrange(n)
+        m = rng.random()
+        if m < 0.45:     # fractional centre near a point
+            c = [float(v) + rng.choice([-1.5, -0.5, -0.25, 0.25, 0.5, 0.75, 1.5, 0.1, -0.3]) for v in rows[i]]
+        elif m < 0.7:    # arbitrary decimals
+            c = [round(rng.uniform(-5, 5), 3) for _ in range(d)]
+        elif m < 0.85:   # far from the origin: single precision would lose the fraction
+            c = [float(v) + 100.1 for v in rows[i]]
+        else:
+            c = [float(v) for v in rows[rng.randrange(n)]]
+        integral = all(float(v).is_integer() for v in c)
+        if flat:
+            cform = rng.choice(["float", "np64", "array0d", "np32"] + (["int"] if integral else []))
+        else:
+            cform = rng.choice(["array64", "array64", "list", "tuple", "array32"] + (["arrayint"] if integral else []))
+        st = {"op": "query", "centre": c[0] if flat else c, "cform": cform}
+        cv = [float(v) for v in np.atleast_1d(np.asarray(centre_arg({**st, "r": 1.0}), dtype=float))]
+        dist = math.dist(rows[i], cv)
+        m = rng.random()
+        if m < 0.6 and dist > 0:
+            r = dist * (1 + rng.choice((1, -1)) * rng.choice([1e-12, 1e-10, 1e-8, 1e-7, 1e-6, 1e-4, 1e-2]))
+        elif m < 0.8:
+            r = float(ri(0, 6))
+        else:
+            r = radius_of(ri(0, 40))["r"]
+        st["r"] = r
+        st["rform"] = rng.choice(["float", "float", "np64", "np32"] + (["int"] if float(r).is_integer() else []))
+        steps.append(st)
+    return desc, steps
+
+
 def run_float_history(desc, steps):
     """Returns (index of the first failing judged step or None, observed, expected, integrate_problem, skipped)."""
     g, state = build_grid(desc), {}
     for j, st in enumerate(steps):
         if st["op"] == "query":
-            c = st["centre"] if isinstance(st["centre"], float) else np.array(st["centre"], dtype=float)
-            exp = float_expected(g, c, st["r"])
+            # the sphere the caller asked for: the numeric VALUES of the arguments actually passed
+            exp = float_expected(g, np.asarray(centre_arg(st), dtype=float), float(radius_arg(st)))
             ob = float_step(g, st, state)
             if exp is None:
                 if j == len(steps) - 1:
@@ -895,17 +981,31 @@ def run(ctx: Ctx):
     maxlen = 8 if ctx.quick else 12
     hs = [wit_hist[f] for f in FLAGS]
     seen = set()
+    nbuildfail = 0
     while len(hs) < nh + len(FLAGS):
         kind = kinds[len(hs) % len(kinds)]
         desc = gen_desc(rng, kind)
-        g = build_grid(desc)
-        P = np.asarray(g.points)
-        h = History(desc, gen_ops(rng, desc, rows_of(P), P.ndim == 1, maxlen))
-        k = h.key()
-        if k in seen:
+        try:
+            g = build_grid(desc)
+            P = np.asarray(g.points)
+            h = History(desc, gen_ops(rng, desc, rows_of(P), P.ndim == 1, maxlen))
+            k = h.key()
+            if k in seen:
+                continue
+            h.run()
+        except Unencodable:
+            raise
+        except Exception as e:  # noqa: BLE001 - constructing a valid grid (or the harness around it) raised: report the concrete grid
+            nbuildfail += 1
+            if nbuildfail <= 3:
+                ctx.fail("corr_history", "construct:" + json.dumps(desc, separators=(",", ":"), sort_keys=True), type(e).__name__,
+                         f"{kind}: constructing / driving the grid {json.dumps(desc)} raised {type(e).__name__}: {str(e)[:120]}",
+                         {"grid": desc})
+            if nbuildfail > 200:
+                raise
             continue
         seen.add(k)
-        hs.append(h.run())
+        hs.append(h)
     cases = []
     pre_bad = []
     for i, h in enumerate(hs):
@@ -939,7 +1039,12 @@ def run(ctx: Ctx):
     # (at most MAXREP reports, shortest histories first; the total is recorded)
     MAXREP = 8
     ctx.cov["disagreeing_histories"] = len(bad)
-    rep = sorted(bad, key=lambda i: (len(hs[i].ops), i))[:MAXREP]
+    # the two shortest disagreeing histories of EVERY grid kind (a failing class is never crowded out by another one)
+    rep, per_kind = [], {}
+    for i in sorted(bad, key=lambda i: (len(hs[i].ops), i)):
+        if per_kind.get(hs[i].kind, 0) < 2:
+            per_kind[hs[i].kind] = per_kind.get(hs[i].kind, 0) + 1
+            rep.append(i)
     pref, owner = [], []
     for i in rep:
         if hs[i].unenc is None:
@@ -972,7 +1077,7 @@ def run(ctx: Ctx):
                      {"history": h.script(step), "observed_full": h.obs[step]}, found_input=False)
     # property failures on histories where the model agrees must be attributable to a flagged defect
     badset = set(bad)
-    unexplained = 0
+    unexplained, ugroups = 0, {}
     for i, h in enumerate(hs):
         if i in badset:
             continue
@@ -986,15 +1091,17 @@ def run(ctx: Ctx):
             if i < len(FLAGS):
                 continue  # the directed witness itself (already reported above)
             unexplained += 1
-            if unexplained > MAXREP:
-                continue
+            group = (h.kind, h.ops[j]["op"], next(iter(h.ops[j].get("index", {"-": 0}))), j in h.sub)
+            if ugroups.get(group, 0) >= 2:
+                continue   # two reports per (grid kind, operation, index kind); every other class is still reported
+            ugroups[group] = ugroups.get(group, 0) + 1
             ctx.fail("query_refines_spec" if h.ops[j]["op"] == "query" else "getitem_spec", h.key(j), h.seen(j),
                      f"{h.kind}: step {j} ({coq_op(h.ops[j])}) observed {h.seen(j)}, the property requires {short(v[1])}",
                      {"history": h.script(j), "observed_full": h.obs[j], "expected": v[1]})
 
     # ---------------- float perturbation histories (judged on the implementation by an exact-rational oracle)
     fkinds = ["Grid", "Grid", "OneDGrid", "MolGrid", "UniformGrid"]
-    nf, done, skipped, freports = (400 if ctx.quick else 4000), 0, 0, 0
+    nf, done, skipped, freports, fgroups = (400 if ctx.quick else 4000), 0, 0, 0, set()
     while done < nf:
         kind = fkinds[done % len(fkinds)]
         desc, steps = gen_float_history(rng, kind)
@@ -1009,12 +1116,43 @@ def run(ctx: Ctx):
         ctx.count(f"float:{kind}:{what}:{mode}")
         if j is not None:
             freports += 1
-            if freports > MAXREP:
-                continue
+            if (kind, what, mode) in fgroups:
+                continue   # first failure per (grid kind, attribute, kind of reassignment)
+            fgroups.add((kind, what, mode))
             hist = {"grid": desc, "steps": steps[: j + 1]}
             ctx.fail("query_refines_spec", "float:" + json.dumps(hist, separators=(",", ":"), sort_keys=True), fshort(ob),
                      f"{kind}: after [{'; '.join(st['op'] + (':' + st['mode'] if 'mode' in st else '') for st in steps[:j])}] "
                      f"step {j} ({steps[j]['op']}) observed {fshort(ob)}, the current points/weights require {fshort(exp)}",
+                     {"float_history": hist, "observed_full": ob, "expected": exp})
+    # storage types and argument forms: "every kind of grid ... every centre and non-negative radius"
+    gkinds = ["Grid", "Grid", "OneDGrid", "OneDGrid", "MolGrid", "UniformGrid", "Tensor1DGrids"]
+    ng, done, seen_groups = (500 if ctx.quick else 5000), 0, set()
+    while done < ng:
+        kind = gkinds[done % len(gkinds)]
+        desc, steps = gen_form_history(rng, kind)
+        try:
+            j, ob, exp, integ, skip = run_float_history(desc, steps)
+        except Exception as e:  # noqa: BLE001 - a constructor / setter of the implementation raised: that is the finding
+            j, ob, exp, skip = len(steps) - 1, f"{type(e).__name__}: {str(e)[:80]}", "no exception", False
+        done += 1
+        q = steps[-1]
+        ctx.case(json.dumps({"grid": desc, "steps": steps}, sort_keys=True), traces=len(steps))
+        ctx.count(f"form:{kind}:points={desc.get('pdtype', 'library')}"
+                  + (":reassigned-" + next(st["dtype"] for st in steps if st.get("mode") == "astype") if any(st.get("mode") == "astype" for st in steps) else ""))
+        ctx.count(f"form:centre={q.get('cform')}:radius={q.get('rform')}")
+        if skip:
+            skipped += 1
+            continue
+        if j is not None:
+            freports += 1
+            group = (kind, desc.get("pdtype"), steps[j].get("cform"), steps[j].get("rform"), steps[j].get("mode"))
+            if group in seen_groups or len(seen_groups) >= 2 * MAXREP:
+                continue   # first failure per (class, storage type, argument form); a new class is always reported
+            seen_groups.add(group)
+            hist = {"grid": desc, "steps": steps[: j + 1]}
+            ctx.fail("query_refines_spec", "form:" + json.dumps(hist, separators=(",", ":"), sort_keys=True), fshort(ob),
+                     f"{kind} (points {desc.get('pdtype', 'as built by the library')}): step {j} {json.dumps(steps[j])} observed {fshort(ob)}, "
+                     f"the sphere asked for requires {fshort(exp)}",
                      {"float_history": hist, "observed_full": ob, "expected": exp})
     ctx.count("float:skipped-boundary-margin", skipped)
     ctx.cov["float_history_failures"] = freports
@@ -1058,6 +1196,8 @@ def run(ctx: Ctx):
         "the property speaks of reassignments: editing, in place and without assigning again, an array the grid holds by reference "
         "(the library never copies and cKDTree aliases its data) is NOT judged; an in-place edit FOLLOWED by an assignment of the "
         "same array object is a reassignment and is judged (float histories)",
+        "storage-type / argument-form histories: the sphere asked for is defined by the numeric VALUES of the centre and radius "
+        "arguments as passed and of the point array as stored",
         "float perturbation histories are judged only when every point is off the sphere boundary by a relative margin 2e-14 in d^2",
         "selection is claimed for Grid, OneDGrid, PeriodicGrid; an empty selection on a OneDGrid with a domain or on a "
         "PeriodicGrid with lattice vectors, and a selection of points lying outside the OneDGrid domain, are rejected by the constructors and "
